@@ -2,31 +2,49 @@
 
 Oracle: numpy longdouble reference (h = UBI.g, nearest integer, drlv2) with
 margin counting around the tolerance; refined UB = (sum g h^T)(sum h h^T)^-1
-over exactly the selected peaks; singular selections must leave the input
-bit-identical.  Definedness: auto-var-init differential (zero vs pattern
-builds) and stack painting on every refinement call.
+over exactly the selected peaks (when a few peaks sit inside the rounding band
+of the tolerance every admissible selection of the reported size is tried);
+singular selections must leave the input bit-identical.  Exactly representable
+cases (power-of-two UBIs, dyadic offsets) decide the strict '<' at
+drlv2 == tol^2 without any band.  Definedness: auto-var-init differential
+(zero vs pattern builds) and stack painting on every refinement call.
 """
+import contextlib
 import ctypes
+import io
+import itertools
+import os
+from fractions import Fraction
 import numpy as np
 from .. import xtal, klib
 from ..common import rng
 
-TECHNIQUE = ("runtime reference-model monitor (longdouble re-computation with margin counting, normal-equation solve) "
-             "on cImageD11.score/score_and_refine/refine_assigned and indexing.refine/calc_drlv2; definedness "
-             "differential: -ftrivial-auto-var-init=zero vs =pattern builds and stack painting")
-LEVEL_TEXT = ("Exploration: generated (UBI, g-vector list, tolerance[, labels]) cases - good to random UBIs, 0..1e5 peaks, "
-              "|h| up to 1e3, noise 0..0.3, peaks engineered at the tolerance boundary, empty/single/coplanar selections - are run "
+TECHNIQUE = ("runtime reference-model monitor (longdouble re-computation with margin counting and enumeration of the admissible "
+             "selections, exact rational model for dyadic cases, normal-equation solve) on cImageD11.score/score_and_refine/"
+             "refine_assigned, indexing.refine/calc_drlv2, indexer.refine and refinegrains.refine; definedness "
+             "differential: -ftrivial-auto-var-init=zero vs =pattern builds and stack painting; input-layout differential "
+             "(Fortran-ordered g-vectors, int64 labels)")
+LEVEL_TEXT = ("Exploration: generated (UBI, g-vector list, tolerance[, labels, label]) cases - good to random UBIs, 0..1e5 peaks, "
+              "|h| up to 1e3, noise 0..0.3, a third of the cases with peaks engineered at the tolerance boundary, "
+              "empty/single/coplanar/collinear selections in axis-aligned and general lattice planes, all dimensions drawn "
+              "independently from the case's own generator - are run "
               "through the f2py module and the directly built kernel libraries; counts must lie in the margin interval, refined "
-              "matrices equal the normal-equation solution when no peak is in the margin, singular cases return the input bit-identical, "
-              "and outputs must not depend on stack/auto-variable garbage.")
-LEVEL_NOTE = ("Trusts numpy longdouble; margin band |drlv2-tol^2| <= 1e-9 tol^2 + 1e-11 (1+|h|max) tol; refined-matrix tolerance "
-              "1e-9 + 1e-10 cond(H) cond(UB), skipped beyond 1e6; auto-var-init and stack painting only expose reads of uninitialised automatic storage that the "
-              "compiler keeps in memory.")
+              "matrices and mean errors must equal the normal-equation solution over an admissible selection of the reported size, "
+              "singular cases return the input bit-identical, exactly representable cases must reproduce the strict '<' bit for bit, "
+              "outputs must not depend on stack/auto-variable garbage nor on the memory layout of the inputs; the Python "
+              "references (module function, indexer method with its ring filter, refinegrains.refine double pass) are decided "
+              "against the same model.")
+LEVEL_NOTE = ("Trusts numpy longdouble and Python fractions; margin band |drlv2-tol^2| <= 1e-9 tol^2 + 1e-11 (1+|h|max) tol; at most 8 "
+              "peaks in the band are enumerated, more are skipped and counted (the run is inconclusive if that exceeds 10% of the "
+              "refinement calls); refined-matrix tolerance 1e-9 + 1e-10 cond(H) cond(UB), skipped beyond 1e6; singular selections with "
+              "|H| >= 2^17 are decided only when H has a zero row (the others are counted as undecided); auto-var-init and stack painting "
+              "only expose reads of uninitialised automatic storage that the compiler keeps in memory.")
 
 RULE = ("a case = (UBI class, peak generator, n, tol, hmax, noise); non-trivial = at least one peak inside and one outside the "
         "tolerance (or a singular selection); distinct = (ubi class, n, tol, hmax, noise class, selection class)")
 
 LD = np.longdouble
+MAX_ENUM = 8
 
 
 def ref_drlv2(ubi, gv):
@@ -40,32 +58,52 @@ def band(tol, hmax):
     return 1e-9 * tol * tol + 1e-11 * (1.0 + hmax) * tol
 
 
-def solve_ref(gv, ih, sel):
+def lsq_sums(gv, ih, sel):
+    """sum g h^T, sum h h^T (longdouble) over the selected peaks"""
     g = np.asarray(gv, LD)[sel]
     h = ih[sel]
-    Rm = g.T @ h           # sum g h^T   (3x3)
-    H = h.T @ h            # sum h h^T
+    return g.T @ h, h.T @ h
+
+
+def solve_sums(Rm, H, npk):
+    """(UB or None, exact det, exact_ok, cond, zero_row) from the normal-equation sums"""
     Hd = H.astype(float)
     # exact integer determinant
     Hi = [[int(x) for x in row] for row in Hd]
     det = (Hi[0][0] * (Hi[1][1] * Hi[2][2] - Hi[1][2] * Hi[2][1])
            - Hi[0][1] * (Hi[1][0] * Hi[2][2] - Hi[1][2] * Hi[2][0])
            + Hi[0][2] * (Hi[1][0] * Hi[2][1] - Hi[1][1] * Hi[2][0]))
-    exact_ok = max(abs(x) for row in Hi for x in row) < 2 ** 17 if len(h) else True
+    # all products of the cofactor expansion are exact in double when every entry is below 2^17
+    exact_ok = max(abs(x) for row in Hi for x in row) < 2 ** 17 if npk else True
+    # a zero row (= zero column, H is symmetric) makes every term of any determinant formula exactly zero,
+    # whatever the size of the other entries and whatever the evaluation order / contraction
+    zero_row = any(all(x == 0 for x in row) for row in Hi)
     if det == 0:
-        return None, det, exact_ok, np.inf
+        return None, det, exact_ok, np.inf, zero_row
     cond = float(np.linalg.cond(Hd))
-    UB = Rm.astype(float) @ np.linalg.inv(Hd)
     # one refinement step in longdouble
     X = np.linalg.inv(Hd).astype(LD)
     X = X @ (2 * np.eye(3, dtype=LD) - H @ X)
     UB = (Rm @ X)
+    return UB, det, exact_ok, cond, zero_row
+
+
+def solve_ref(gv, ih, sel):
+    Rm, H = lsq_sums(gv, ih, sel)
+    UB, det, exact_ok, cond, _ = solve_sums(Rm, H, int(np.sum(sel)))
     return UB, det, exact_ok, cond
 
 
+KINDS6 = ["good", "good", "perturbed", "perturbed", "random", "strained"]
+SIZES = [0, 1, 2, 3, 5, 10, 100, 1000, 4096]
+SELS = ["normal", "normal", "normal", "normal", "coplanar", "collinear", "puregarbage", "coplanar-g",
+        "coplanar-generic", "collinear-generic"]
+
+
 def gen_case(r, idx, tier):
-    kind = ["good", "good", "perturbed", "perturbed", "random", "strained"][idx % 6]
-    cell = xtal.random_cell(r, xtal.KINDS[idx % 7], 3.0, 12.0)
+    # every dimension is drawn from the case's own generator (they used to be aliased through idx % 6, idx % 9, idx % 3)
+    kind = KINDS6[int(r.integers(len(KINDS6)))]
+    cell = xtal.random_cell(r, xtal.KINDS[int(r.integers(7))], 3.0, 12.0)
     B = xtal.Bmat(cell)
     R = xtal.random_rotation(r, "haar")
     UB = R @ B
@@ -76,19 +114,33 @@ def gen_case(r, idx, tier):
         ubi = ubi @ xtal.random_sym_stretch(r, 5e-3)
     elif kind == "random":
         ubi = r.uniform(-8, 8, (3, 3))
-    sizes = [0, 1, 2, 3, 5, 10, 100, 1000, 4096]
-    n = int(sizes[idx % len(sizes)])
+    n = int(SIZES[int(r.integers(len(SIZES)))])
     if idx % 53 == 7:
         n = 100000 if tier == "thorough" else 20000
     hmax = int(r.choice([2, 3, 10, 100, 1000]))
     tol = float(r.choice([1e-3, 0.01, 0.05, 0.1, 0.25, 0.5]))
     noise = float(r.choice([0.0, 1e-4, 0.01, 0.05, 0.3]))
-    sel = ["normal", "normal", "normal", "coplanar", "collinear", "puregarbage", "coplanar-g"][int(r.integers(7))]
+    sel = SELS[int(r.integers(len(SELS)))]
+    boundary = bool(r.random() < 0.35)
     h = r.integers(-hmax, hmax + 1, (n, 3)).astype(float)
     if sel == "coplanar":
-        h[:, 2] = 0
+        h[:, int(r.integers(3))] = 0
     elif sel == "collinear" and n:
         h = np.outer(r.integers(-hmax, hmax + 1, n), [1, 2, -1]).astype(float)
+    elif sel == "coplanar-generic" and n:
+        # a general lattice plane: h = a.v1 + b.v2 - sum h h^T is singular without having a zero row
+        while True:
+            v1, v2 = r.integers(-3, 4, 3), r.integers(-3, 4, 3)
+            if np.abs(np.cross(v1, v2)).sum():
+                break
+        ab = r.integers(-hmax, hmax + 1, (n, 2))
+        h = (ab[:, :1] * v1 + ab[:, 1:] * v2).astype(float)
+    elif sel == "collinear-generic" and n:
+        while True:
+            v = r.integers(-3, 4, 3)
+            if np.abs(v).sum():
+                break
+        h = np.outer(r.integers(-hmax, hmax + 1, n), v).astype(float)
     dh = r.normal(0, 1, (n, 3)) * noise
     gv = (h + dh) @ UB.T
     if sel == "puregarbage":
@@ -99,8 +151,9 @@ def gen_case(r, idx, tier):
         gv = r.uniform(-1, 1, (n, 3))
         gv[:, int(r.integers(3))] = 0.0
         tol = 0.5
-    # engineered boundary peaks: drlv exactly tol*(1+-1e-6 / 1e-12) (exercise the margin logic)
-    nb = min(n // 4, 6)
+    # engineered boundary peaks: drlv exactly tol*(1+-1e-6 / 1e-12) (exercise the margin logic); only in a third of the
+    # cases, so that the refined matrix of the typical case is decided on a selection without margin peaks
+    nb = min(n // 4, 6) if boundary else 0
     for k in range(nb):
         f = [1 - 1e-6, 1 + 1e-6, 1 - 1e-12, 1 + 1e-12, 1.0, 1 - 1e-3][k]
         dirn = r.normal(size=3)
@@ -109,11 +162,15 @@ def gen_case(r, idx, tier):
     gv = np.ascontiguousarray(gv)
     if sel == "coplanar-g":
         gv[:, np.argmin(np.abs(gv).sum(axis=0))] = 0.0     # keep it exactly planar after the boundary peaks
-    return dict(kind=kind, cell=cell, n=n, hmax=hmax, tol=tol, noise=noise, sel=sel), ubi, gv
+    return dict(kind=kind, cell=cell, n=n, hmax=hmax, tol=tol, noise=noise, sel=sel, boundary=boundary), ubi, gv
+
+
+def pending(key):
+    return bool(os.environ.get("VERIF_PENDING_" + key))
 
 
 def one_case(run, seed, idx, mods, libs):
-    cImageD11, indexing = mods
+    cImageD11, indexing = mods[:2]
     r = rng(seed, "C06", idx)
     d, ubi, gv = gen_case(r, idx, run.tier)
     desc = dict(d, index=idx)
@@ -126,9 +183,10 @@ def one_case(run, seed, idx, mods, libs):
     unsure = (~inside) & (drlv2 < t2 + bw)
     n_lo, n_hi = int(inside.sum()), int(inside.sum() + unsure.sum())
     run.case((d["kind"], n, tol, d["hmax"], d["noise"], d["sel"]),
-             nontrivial=(0 < n_lo < n) or d["sel"] in ("coplanar", "collinear") or n <= 2,
+             nontrivial=(0 < n_lo < n) or d["sel"] in ("coplanar", "collinear", "coplanar-generic", "collinear-generic") or n <= 2,
              sample=dict(desc, n_lo=n_lo, n_hi=n_hi))
     run.count("margin_peaks", int(unsure.sum()))
+    run.count("class_%s_n%d" % (d["kind"], n) if n in SIZES else "class_big")
 
     def V(key, what):
         run.violation(key, what, dict(desc, n_lo=n_lo, n_hi=n_hi))
@@ -164,19 +222,29 @@ def one_case(run, seed, idx, mods, libs):
         outs.append((u.tobytes(), nn.value, mm.value))
     if len(set(outs)) != 1:
         V("score_and_refine:stack-dependent", "result depends on stack content before the call")
+    # The f2py module and the directly built library are two compilations of the same source: they need not agree bit for
+    # bit (contraction / -march may differ between the builds), so the library's result is held to the reference on its own
+    # and a bit difference is only counted
     if outs[0][0] != u1.tobytes() or outs[0][1] != nr:
-        V("score_and_refine:f2py-vs-lib", "f2py module and directly built kernel disagree")
+        run.count("f2py_vs_library_bit_differences")
+        ul = np.frombuffer(outs[0][0], float).reshape(3, 3).copy()
+        if not (n_lo <= outs[0][1] <= n_hi):
+            V("score_and_refine:library:count", "n=%d outside [%d,%d]" % (outs[0][1], n_lo, n_hi))
+        check_refined(run, V, "score_and_refine:library", ubi, ul, gv, ih, drlv2, inside, unsure, outs[0][1], outs[0][2],
+                      counters=False)
 
-    # ---- refine_assigned
-    nlab = int(r.integers(1, 4))
-    labels = r.integers(-1, nlab, n).astype(np.int32)
+    # ---- refine_assigned: the label value is part of the case (0, the "unassigned" value -1, large, negative)
+    lab = int([0, 0, 0, -1, 1, 2, 2 ** 31 - 1, -5, 1000003][int(r.integers(9))])
+    others = [x for x in (-1, 0, 1, 7, lab + 1 if lab < 2 ** 31 - 1 else 5) if x != lab]
+    pool = np.array([lab] + others[:int(r.integers(1, 4))], np.int32)
+    labels = pool[r.integers(0, len(pool), n)].astype(np.int32)
     if d["sel"] == "normal" and n:
         # label by true fit so the selection is sensible
-        labels = np.where(np.asarray(inside), 0, -1).astype(np.int32)
+        labels = np.where(np.asarray(inside), lab, others[0]).astype(np.int32)
         if n > 3:
-            labels[r.integers(0, n, max(1, n // 10))] = 1
-    lab = 0
+            labels[r.integers(0, n, max(1, n // 10))] = others[-1]
     sel = labels == lab
+    run.count("refine_assigned_label_%s" % ("0" if lab == 0 else "-1" if lab == -1 else "other"))
     u2 = np.ascontiguousarray(ubi.copy())
     if n == 0:
         # the f2py wrapper refuses zero-length label arrays (ValueError); the kernel itself is
@@ -190,7 +258,7 @@ def one_case(run, seed, idx, mods, libs):
         npk, md = cImageD11.refine_assigned(u2, gv, labels, lab)
     run.count("refine_assigned_calls")
     if npk != int(sel.sum()):
-        V("refine_assigned:count", "npk=%d != #labels==label %d" % (npk, int(sel.sum())))
+        V("refine_assigned:count", "npk=%d != #labels==label %d (label %d)" % (npk, int(sel.sum()), lab))
     check_refined(run, V, "refine_assigned", ubi, u2, gv, ih, drlv2, sel, np.zeros(n, bool), npk, md)
     outs = []
     for var, pat in (("plain", 0x00), ("plain", 0xAA), ("plain", 0x55), ("avi0", 0x00), ("aviP", 0x00)):
@@ -225,72 +293,428 @@ def one_case(run, seed, idx, mods, libs):
     if res[0] != res[1]:
         V("score_and_refine:uninitialised", "zero-init and pattern-init builds disagree")
 
-    # ---- python indexing.refine as a second opinion (needs >=1 selected peak)
-    if n_lo == n_hi and n_lo > 0 and idx % 3 == 0:
-        UBr, det, exact_ok, cond = solve_ref(gv, ih, np.asarray(inside))
-        if UBr is not None and cond * float(np.linalg.cond(UBr.astype(float))) < 1e6:
-            up = indexing.refine(ubi.copy(), gv, tol)
-            # refine() returns the input unchanged when the refined matrix indexes nothing
-            want = np.linalg.inv(UBr.astype(float))
-            run.count("python_refine_calls")
-            if not (np.abs(up - want).max() <= (1e-9 + 1e-13 * cond * float(np.linalg.cond(want))) * np.abs(want).max() or
-                    np.array_equal(up, ubi)):
-                V("indexing.refine", "python refine differs from the normal-equation solution")
+    # ---- input layout: real callers build gv as np.array((gx, gy, gz)).T (Fortran order) and may hold int64 labels; the
+    # wrapper has to copy/convert them.  Same module, same values => the results must be identical to the C-ordered call
+    if n and r.random() < 0.3:
+        gvF = np.array((gv[:, 0], gv[:, 1], gv[:, 2])).T
+        assert not gvF.flags["C_CONTIGUOUS"] or n == 1
+        run.count("layout_variant_cases")
+        nsF = int(cImageD11.score(ubi, gvF, tol))
+        uF = np.ascontiguousarray(ubi.copy())
+        nrF, meanF = cImageD11.score_and_refine(uF, gvF, tol)
+        uA = np.ascontiguousarray(ubi.copy())
+        npkF, mdF = cImageD11.refine_assigned(uA, gvF, labels.astype(np.int64), lab)
+        if nsF != ns or nrF != nr or meanF != mean or uF.tobytes() != u1.tobytes():
+            V("layout:gv-fortran-order", "score/score_and_refine give different results for a Fortran-ordered copy of the "
+              "same g-vectors (score %d vs %d, n %d vs %d)" % (nsF, ns, nrF, nr))
+        if npkF != npk or mdF != md or uA.tobytes() != u2.tobytes():
+            V("layout:labels-int64", "refine_assigned gives different results for Fortran-ordered g-vectors / int64 labels "
+              "(npk %d vs %d)" % (npkF, npk))
+
+    # ---- python indexing.refine as a second opinion (needs >=1 selected peak, else it raises by design)
+    if n_lo == n_hi and n_lo > 0 and (n <= 100 or r.random() < 0.4):
+        python_refine(run, V, indexing, d, ubi, gv, ih, np.asarray(inside), tol, hm)
 
 
-def check_refined(run, V, name, ubi0, u, gv, ih, drlv2, inside, unsure, n_rep, mean_rep):
-    if unsure.any():
-        run.count("refined_skipped_margin")
-        return
-    sel = np.asarray(inside)
-    ns = int(sel.sum())
-    if n_rep != ns:
-        return  # already reported by the count check
-    mean_ref = float(drlv2[sel].sum() / ns) if ns else 0.0
-    if abs(mean_rep - mean_ref) > 1e-9 * max(mean_ref, 1e-30) + 1e-13 * (1 + float(np.abs(ih).max() if len(ih) else 0)) ** 2 * 1e-3:
-        V(name + ":mean-drlv2", "reported mean drlv2 %r != reference %r (n=%d)" % (mean_rep, mean_ref, ns))
-    UBr, det, exact_ok, cond = solve_ref(gv, ih, sel)
-    gsel = np.asarray(gv)[sel]
-    if det != 0 and ns and (gsel == 0).all(axis=0).any():
-        # every selected g-vector has an exactly zero component: sum g h^T has a zero row, so UB = R H^-1 has a
-        # zero row, its determinant is exactly 0 in floating point too and no UBI exists: input must come back
-        run.count("singular_cases")
-        run.count("singular_UB_cases")
-        if u.tobytes() != np.ascontiguousarray(ubi0).tobytes():
-            V(name + ":singular-UB-modified", "selected g-vectors are coplanar (UB = R H^-1 has no inverse, %d peaks) but the "
-              "matrix was modified: %r" % (ns, u.tolist()))
-        return
-    if det == 0:
-        if exact_ok:
-            run.count("singular_cases")
-            if u.tobytes() != np.ascontiguousarray(ubi0).tobytes():
-                V(name + ":singular-modified", "normal equations singular (det H = 0, %d peaks) but the matrix was modified" % ns)
+def count_indexed(ubi, gv, tol, hm):
+    d2, _, _ = ref_drlv2(ubi, gv)
+    t2 = LD(tol) * LD(tol)
+    bw = band(tol, hm)
+    return int((d2 < t2 - bw).sum()), int((d2 < t2 + bw).sum())
+
+
+def python_refine(run, V, indexing, d, ubi, gv, ih, inside, tol, hm):
+    """indexing.refine (the Python reference): least-squares solution over the indexed peaks; the input when the normal
+    equations are singular (statement) or when the refined matrix indexes nothing (documented in the function)"""
+    Rm, H = lsq_sums(gv, ih, inside)
+    UBr, det, exact_ok, cond, zero_row = solve_sums(Rm, H, int(inside.sum()))
+    gsel = np.asarray(gv)[inside]
+    singular_ub = det != 0 and (gsel == 0).all(axis=0).any()
+    with contextlib.redirect_stdout(io.StringIO()):      # ImageD11.indexing logs through print()
+        up = indexing.refine(ubi.copy(), gv, tol)
+    run.count("python_refine_calls")
+    run.count("python_refine_kind_%s" % d["kind"])
+    if det == 0 or singular_ub:
+        # exact determinant of the integer matrix sum h h^T is zero (or sum g h^T has a zero row): statement says the input
+        # matrix is returned unchanged
+        run.count("python_refine_singular_cases")
+        if zero_row or singular_ub:
+            run.count("python_refine_singular_zero_row_cases")
+        if not np.array_equal(up, ubi):
+            run.count("python_refine_singular_modified_observed")
+            if True:
+                # for singular H without a zero row numpy's LU leaves a rounding-size pivot and no LinAlgError is raised:
+                # the pinned indexing.refine returned a garbage matrix there (repaired in /repo by a rank test, see
+                # known_findings.json); every singular class is judged.
+                V("indexing.refine:singular-modified", "normal equations are singular (exact det sum h h^T = 0, %d peaks) but "
+                  "indexing.refine returned a different matrix (max change %.3g)" % (int(inside.sum()), np.abs(up - ubi).max()))
         return
     UBd = UBr.astype(float)
     if abs(np.linalg.det(UBd)) < 1e-12 * np.abs(UBd).max() ** 3:
-        run.count("refined_skipped_illconditioned")
         return
+    want = np.linalg.inv(UBd)
+    kk = cond * float(np.linalg.cond(want))
+    if kk > 1e6:
+        run.count("python_refine_skipped_illconditioned")
+        return
+    # refine() returns its input when the refined matrix indexes nothing: decide that with the reference, with margin
+    a_lo, a_hi = count_indexed(want, gv, tol, hm)
+    ok_want = np.abs(up - want).max() <= (1e-9 + 1e-13 * kk) * np.abs(want).max()
+    ok_same = np.array_equal(up, ubi)
+    run.count("python_refine_decided")
+    if a_lo > 0:
+        good = ok_want
+    elif a_hi == 0:
+        good = ok_same
+        run.count("python_refine_refined_indexes_nothing")
+    else:
+        good = ok_want or ok_same
+    if not good:
+        V("indexing.refine", "python refine differs from the normal-equation solution (max diff %.3g; the reference solution "
+          "indexes between %d and %d peaks; returned the input: %s)" % (np.abs(up - want).max(), a_lo, a_hi, ok_same))
+
+
+def judge_selection(name, ubi0, u, gv, ih, drlv2, sel, n_rep, mean_rep, Rm, H):
+    """Compare (u, n_rep, mean_rep) with the model for one admissible selection.
+    Returns (failures [(key, what)], counters [names])."""
+    fails, cnt = [], []
+    ns = int(sel.sum())
+    mean_ref = float(drlv2[sel].sum() / ns) if ns else 0.0
+    if abs(mean_rep - mean_ref) > 1e-9 * max(mean_ref, 1e-30) + 1e-13 * (1 + float(np.abs(ih).max() if len(ih) else 0)) ** 2 * 1e-3:
+        fails.append((name + ":mean-drlv2", "reported mean drlv2 %r != reference %r (n=%d)" % (mean_rep, mean_ref, ns)))
+    UBr, det, exact_ok, cond, zero_row = solve_sums(Rm, H, ns)
+    gsel = np.asarray(gv)[sel]
+    unchanged = u.tobytes() == np.ascontiguousarray(ubi0).tobytes()
+    if det != 0 and ns and (gsel == 0).all(axis=0).any():
+        # every selected g-vector has an exactly zero component: sum g h^T has a zero row, so UB = R H^-1 has a
+        # zero row, its determinant is exactly 0 in floating point too and no UBI exists: input must come back
+        cnt += ["singular_cases", "singular_UB_cases"]
+        if not unchanged:
+            fails.append((name + ":singular-UB-modified", "selected g-vectors are coplanar (UB = R H^-1 has no inverse, %d peaks) "
+                          "but the matrix was modified: %r" % (ns, u.tolist())))
+        return fails, cnt
+    if det == 0:
+        if exact_ok or zero_row:
+            # exact_ok: every product of the kernel's cofactor expansion is exact in double, so its determinant is exactly 0;
+            # zero_row: every term has an exactly zero factor whatever the size of the other entries
+            cnt.append("singular_cases")
+            if not exact_ok:
+                cnt.append("singular_cases_large_H_zero_row")
+            if zero_row:
+                cnt.append("singular_cases_zero_row")
+            else:
+                cnt.append("singular_cases_general_plane")
+            if not unchanged:
+                fails.append((name + ":singular-modified", "normal equations singular (det H = 0, %d peaks) but the matrix was "
+                              "modified" % ns))
+        else:
+            cnt.append("singular_large_H_undecided")
+        return fails, cnt
+    UBd = UBr.astype(float)
+    if abs(np.linalg.det(UBd)) < 1e-12 * np.abs(UBd).max() ** 3:
+        cnt.append("refined_skipped_illconditioned")
+        return fails, cnt
     # error model: cofactor inverse of H (eps.cond(H)), product, cofactor inverse of UB
     # (amplifies by cond(UB)); observed on correct code: ~6e-12.kk for large-integer H (products
     # beyond 2^53); cases beyond kk=1e6 are skipped and counted
     kk = cond * float(np.linalg.cond(UBd))
     if kk > 1e6:
-        run.count("refined_skipped_illconditioned")
-        return
+        cnt.append("refined_skipped_illconditioned")
+        return fails, cnt
     want = np.linalg.inv(UBd)
-    run.count("refined_matrices_checked")
+    cnt.append("refined_matrices_checked")
     err = np.abs(u - want).max()
     if not err <= (1e-9 + 1e-10 * kk) * np.abs(want).max():
-        V(name + ":solution", "refined UBI differs from (sum g h^T)(sum h h^T)^-1 solution: err %.3g rel %.3g "
-          "cond(H).cond(UB) %.3g" % (err, err / np.abs(want).max(), kk))
+        fails.append((name + ":solution", "refined UBI differs from (sum g h^T)(sum h h^T)^-1 solution: err %.3g rel %.3g "
+                      "cond(H).cond(UB) %.3g" % (err, err / np.abs(want).max(), kk)))
+    return fails, cnt
+
+
+def check_refined(run, V, name, ubi0, u, gv, ih, drlv2, inside, unsure, n_rep, mean_rep, counters=True):
+    inside = np.asarray(inside)
+    unsure = np.asarray(unsure)
+    n_lo = int(inside.sum())
+    ku = int(unsure.sum())
+    extra = n_rep - n_lo
+    if not 0 <= extra <= ku:
+        return  # already reported by the count check
+    if ku > MAX_ENUM:
+        if counters:
+            run.count("refined_skipped_margin")
+        return
+    Rm0, H0 = lsq_sums(gv, ih, inside)
+    if ku == 0:
+        cands = [()]
+    else:
+        # peaks inside the rounding band of the tolerance may legitimately be on either side: the result must be the model
+        # for SOME selection inside + (subset of the band peaks) that has the reported size
+        if counters:
+            run.count("refined_margin_enumerated")
+        cands = list(itertools.combinations(np.nonzero(unsure)[0].tolist(), extra))
+    best = None
+    gL = np.asarray(gv, LD)
+    for c in cands:
+        sel = inside.copy()
+        Rm, H = Rm0.copy(), H0.copy()
+        for k in c:
+            sel[k] = True
+            Rm += np.outer(gL[k], ih[k])
+            H += np.outer(ih[k], ih[k])
+        fails, cnt = judge_selection(name, ubi0, u, gv, ih, drlv2, sel, n_rep, mean_rep, Rm, H)
+        if best is None or len(fails) < len(best[0]):
+            best = (fails, cnt)
+        if not fails:
+            break
+    fails, cnt = best
+    if counters:
+        for c in cnt:
+            run.count(c)
+    for key, what in fails:
+        V(key, what + (" [no admissible selection of the %d band peaks fits]" % ku if ku else ""))
+
+
+# ---------------------------------------------------------------------------------------------------------------------
+# exactly representable cases: the strict '<' at drlv2 == tol^2
+# ---------------------------------------------------------------------------------------------------------------------
+EXACT_PATTERNS = {
+    # tol: offsets (in hkl units, dyadic) whose squared length is exactly tol^2
+    0.5: [(0.5, 0, 0)],
+    0.25: [(0.25, 0, 0)],
+    0.125: [(0.125, 0, 0)],
+    0.0625: [(0.0625, 0, 0)],
+    0.375: [(0.25, 0.25, 0.125), (0.375, 0, 0)],          # 1/16 + 1/16 + 1/64 = 9/64
+    0.1875: [(0.125, 0.125, 0.0625)],                     # the same, halved
+}
+
+
+def exact_case(run, seed, k, mods, libs):
+    """UBI = signed permutation of diag(2^a): h = UBI.g, rint, t = h - rint(h), t.t and tol*tol are all exact in double, so the
+    kernel, the Python reference and a rational model must agree on every peak, including those with drlv2 == tol^2 exactly
+    (not indexed: the definition is the strict '<' of the Python reference)."""
+    cImageD11, indexing = mods[:2]
+    r = rng(seed, "C06", "exact", k)
+    tol = float(list(EXACT_PATTERNS)[int(r.integers(len(EXACT_PATTERNS)))])
+    pats = EXACT_PATTERNS[tol]
+    perm = r.permutation(3)
+    sg = r.choice([-1.0, 1.0], 3)
+    a = r.integers(0, 5, 3)
+    ubi = np.zeros((3, 3))
+    for i in range(3):
+        ubi[i, perm[i]] = sg[i] * 2.0 ** a[i]
+    ub = np.linalg.inv(ubi)                      # exact: entries +-2^-a
+    n = int(r.choice([6, 12, 40, 200]))
+    hmax = int(r.choice([3, 50, 1000]))
+    hint = r.integers(-hmax, hmax + 1, (n, 3)).astype(float)
+    eps = 2.0 ** -20
+    off = np.zeros((n, 3))
+    cls = r.integers(0, 4, n)                    # 0 exactly at tol, 1 just inside, 2 just outside, 3 well inside
+    for i in range(n):
+        p = np.array(pats[int(r.integers(len(pats)))])[r.permutation(3)] * r.choice([-1.0, 1.0], 3)
+        j = int(np.argmax(np.abs(p)))
+        if cls[i] == 1:
+            p[j] -= np.sign(p[j]) * eps
+        elif cls[i] == 2:
+            p[j] += np.sign(p[j]) * eps
+        elif cls[i] == 3:
+            p = p * 0.5
+        off[i] = p
+    hk = hint + off                              # exact (|h| <= 1000, offsets multiples of 2^-20)
+    gv = np.ascontiguousarray(hk @ ub.T)         # exact: one non-zero product per component
+    # rational model
+    t2 = Fraction(tol) * Fraction(tol)
+    inside = np.zeros(n, bool)
+    at_tol = 0
+    for i in range(n):
+        s = Fraction(0)
+        for j in range(3):
+            x = Fraction(float(hk[i, j]))
+            t = x - round(x)                     # nearest integer; at an exact half both neighbours give t*t = 1/4
+            s += t * t
+        inside[i] = s < t2
+        at_tol += int(s == t2)
+    desc = dict(index=k, route="exact", tol=tol, n=n, hmax=hmax, at_tol=at_tol, ubi=ubi.tolist())
+    run.case(("exact", tol, n, hmax, tuple(a.tolist())), nontrivial=at_tol > 0 and 0 < inside.sum() < n, sample=desc)
+    run.count("exact_cases")
+    run.count("exact_peaks_at_tolerance", at_tol)
+
+    def V(key, what):
+        run.violation(key, what, desc)
+
+    want = int(inside.sum())
+    ns = int(cImageD11.score(ubi, gv, tol))
+    if ns != want:
+        V("exact:score", "cImageD11.score=%d but exactly %d peaks have drlv2 < tol^2 (%d peaks have drlv2 == tol^2 exactly)"
+          % (ns, want, at_tol))
+    pd = indexing.calc_drlv2(ubi, gv)
+    if int((pd < tol * tol).sum()) != want or not np.array_equal(pd < tol * tol, inside):
+        V("exact:calc_drlv2", "Python reference count %d != rational model %d" % (int((pd < tol * tol).sum()), want))
+    u1 = np.ascontiguousarray(ubi.copy())
+    nr, mean = cImageD11.score_and_refine(u1, gv, tol)
+    if nr != want:
+        V("exact:score_and_refine", "score_and_refine n=%d but exactly %d peaks have drlv2 < tol^2 (%d at equality)"
+          % (nr, want, at_tol))
+    else:
+        d2, ih, _ = ref_drlv2(ubi, gv)
+        check_refined(run, V, "exact:score_and_refine", ubi, u1, gv, ih, d2, inside, np.zeros(n, bool), nr, mean)
+    nn, mm = ctypes.c_int(-1), ctypes.c_double(-1.0)
+    u = np.ascontiguousarray(ubi.copy())
+    libs["plain"].score_and_refine(klib.ptr(u), klib.ptr(gv), tol, ctypes.byref(nn), ctypes.byref(mm), n)
+    if nn.value != want:
+        V("exact:score_and_refine:library", "library score_and_refine n=%d != %d" % (nn.value, want))
+
+
+# ---------------------------------------------------------------------------------------------------------------------
+# anchored Python callers: indexer.refine (ring filter) and refinegrains.refine (double pass)
+# ---------------------------------------------------------------------------------------------------------------------
+def method_case(run, seed, k, mods):
+    cImageD11, indexing, refinegrains, unitcell = mods
+    r = rng(seed, "C06", "method", k)
+    kind = ["cubic", "tetragonal", "orthorhombic", "hexagonal"][int(r.integers(4))]
+    cell = xtal.random_cell(r, kind, 3.5, 6.0)
+    sym = ["P", "F", "I"][int(r.integers(3))] if kind == "cubic" else "P"
+    uc = unitcell.unitcell(cell, sym)
+    UB = xtal.random_rotation(r) @ np.asarray(uc.B)
+    tol = float(r.choice([0.02, 0.05, 0.1]))
+    noise = float(r.choice([0.0, 0.005, 0.02, 0.04]))
+    dsmax = float(r.uniform(1.6, 2.4)) / min(cell[:3])
+    hmax = int(np.ceil(dsmax * max(cell[:3]))) + 1
+    hh = np.array([x for x in itertools.product(range(-hmax, hmax + 1), repeat=3) if any(x)], float)
+    hh = hh[np.sqrt(((hh @ np.asarray(uc.B).T) ** 2).sum(axis=1)) < dsmax]
+    # all lattice points (allowed or not: forbidden ones are indexed by the UBI but lie on no ring), a random subset
+    keep = r.random(len(hh)) < min(1.0, 120.0 / max(len(hh), 1))
+    hh = hh[keep]
+    n1 = len(hh)
+    gv = (hh + r.normal(0, 1, (n1, 3)) * noise) @ UB.T
+    junk = r.uniform(-dsmax, dsmax, (max(3, n1 // 5), 3))
+    gv = np.ascontiguousarray(np.concatenate([gv, junk]))
+    n = len(gv)
+    ubi = np.linalg.inv(UB) @ xtal.rot_axis_angle(r.normal(size=3), 10 ** r.uniform(-4, -2.3))
+    desc = dict(index=k, route="method", kind=kind, sym=sym, cell=cell, tol=tol, noise=noise, n=n)
+    drlv2, ih, h = ref_drlv2(ubi, gv)
+    hm = float(np.abs(h).max())
+    t2 = LD(tol) * LD(tol)
+    bw = band(tol, hm)
+
+    def V(key, what):
+        run.violation(key, what, desc)
+
+    # ---- indexer.refine: least squares over the peaks that are indexed AND assigned to a ring
+    quiet = contextlib.redirect_stdout(io.StringIO())    # ImageD11.indexing logs through print()
+    quiet.__enter__()
+    try:
+        ix = indexing.indexer(unitcell=uc, gv=gv.copy(), hkl_tol=tol, wavelength=0.3)
+        try:
+            ix.assigntorings()
+            ra = np.asarray(ix.ra).copy()       # the ring assignment is an input of the method (decided in C03/C08)
+        except IndexError:
+            # unitcell.makerings has no reflection below the largest |g| (few peaks, centred lattice): there is no ring
+            # assignment to filter by (input class outside this property, see DESIGN.md Corrections for C03)
+            run.count("indexer_refine_skipped_no_rings")
+            ra = np.full(n, -1)
+        onring = ra > -1
+        inside = (drlv2 < t2 - bw) & onring
+        unsure = (~(drlv2 < t2 - bw)) & (drlv2 < t2 + bw) & onring
+        run.case(("indexer.refine", kind, sym, tol, noise), nontrivial=bool((inside.sum() > 3) and (~onring & (drlv2 < t2 - bw)).any()),
+                 sample=dict(desc, indexed_on_ring=int(inside.sum()), indexed_off_ring=int((~onring & (drlv2 < t2 - bw)).sum())))
+        if unsure.any() or inside.sum() == 0:
+            run.count("indexer_refine_skipped_margin_or_empty")
+        else:
+            try:
+                up = ix.refine(ubi.copy())
+                err = None
+            except Exception as e:      # the method raises when the refined matrix indexes nothing
+                up, err = None, e
+            run.count("indexer_refine_calls")
+            run.count("indexer_refine_offring_indexed_peaks", int((~onring & (drlv2 < t2 - bw)).sum()))
+            Rm, H = lsq_sums(gv, ih, inside)
+            UBr, det, exact_ok, cond, zero_row = solve_sums(Rm, H, int(inside.sum()))
+            if det != 0:
+                UBd = UBr.astype(float)
+                want = np.linalg.inv(UBd)
+                kk = cond * float(np.linalg.cond(want))
+                d2a, _, _ = ref_drlv2(want, gv)
+                a_in = (d2a < t2 - bw) & onring
+                a_un = (~(d2a < t2 - bw)) & (d2a < t2 + bw) & onring
+                if kk < 1e6 and a_in.sum() > 0 and not a_un.any():
+                    run.count("indexer_refine_decided")
+                    if up is None:
+                        V("indexer.refine:raised", "indexer.refine raised %r although the least-squares solution indexes %d "
+                          "ring-assigned peaks" % (err, int(a_in.sum())))
+                    else:
+                        if not np.abs(up - want).max() <= (1e-9 + 1e-13 * kk) * np.abs(want).max():
+                            V("indexer.refine:solution", "indexer.refine differs from the normal-equation solution over the "
+                              "indexed, ring-assigned peaks by %.3g (%d peaks, %d indexed peaks are off-ring)"
+                              % (np.abs(up - want).max(), int(inside.sum()), int((~onring & (drlv2 < t2 - bw)).sum())))
+                        if int(ix.scorelastrefined) != int(a_in.sum()):
+                            V("indexer.refine:scorelastrefined", "scorelastrefined %d != %d ring-assigned peaks indexed by the "
+                              "refined matrix" % (ix.scorelastrefined, int(a_in.sum())))
+                        fit = float(np.sqrt(d2a[a_in].sum() / a_in.sum()))
+                        if abs(ix.fitlastrefined - fit) > 1e-9 * fit + 1e-12 * (1 + hm):
+                            V("indexer.refine:fitlastrefined", "fitlastrefined %r != sqrt(mean drlv2) %r" % (ix.fitlastrefined, fit))
+    finally:
+        quiet.__exit__(None, None, None)
+
+    # ---- refinegrains.refine (default triclinic symmetry): two passes of score_and_refine; the returned matrix is the
+    # least-squares solution over the peaks indexed by the first-pass matrix, npks / avg_drlv2 are the count and mean
+    # error of that second selection
+    with contextlib.redirect_stdout(io.StringIO()):      # the constructor prints its omega slop
+        o = refinegrains.refinegrains(tolerance=tol)
+    o.gv = gv
+    mat = o.refine(ubi.copy())
+    run.count("refinegrains_refine_calls")
+    in1 = drlv2 < t2 - bw
+    un1 = (~in1) & (drlv2 < t2 + bw)
+    if un1.any() or in1.sum() == 0:
+        run.count("refinegrains_refine_skipped")
+        return
+    UB1, det1, _, c1 = solve_ref(gv, ih, in1)
+    if det1 == 0:
+        run.count("refinegrains_refine_skipped")
+        return
+    ubi1 = np.linalg.inv(UB1.astype(float))
+    d2b, ihb, hb = ref_drlv2(ubi1, gv)
+    # the kernel's first-pass matrix differs from ubi1 by the refinement tolerance: widen the band by |dUBI|.|g|.2 tol
+    k1 = c1 * float(np.linalg.cond(ubi1))
+    slack = 2 * tol * (1e-9 + 1e-10 * k1) * np.abs(ubi1).max() * 3 * float(np.abs(gv).max())
+    in2 = d2b < t2 - bw - slack
+    un2 = (~in2) & (d2b < t2 + bw + slack)
+    if un2.any() or in2.sum() == 0 or k1 > 1e6:
+        run.count("refinegrains_refine_skipped")
+        return
+    UB2, det2, _, c2 = solve_ref(gv, ihb, in2)
+    if det2 == 0:
+        run.count("refinegrains_refine_skipped")
+        return
+    want = np.linalg.inv(UB2.astype(float))
+    k2 = c2 * float(np.linalg.cond(want))
+    if k2 > 1e6:
+        run.count("refinegrains_refine_skipped")
+        return
+    run.count("refinegrains_refine_decided")
+    if int(o.npks) != int(in2.sum()):
+        V("refinegrains.refine:npks", "npks %d != %d peaks indexed by the first-pass matrix" % (o.npks, int(in2.sum())))
+    mean2 = float(d2b[in2].sum() / in2.sum())
+    # mean error with the kernel's own first-pass matrix: first-order change 2.sqrt(mean).|dh|
+    if abs(o.avg_drlv2 - mean2) > 1e-9 * mean2 + 2 * np.sqrt(mean2) * slack / (2 * tol) + 1e-18:
+        V("refinegrains.refine:avg_drlv2", "avg_drlv2 %r != reference %r" % (o.avg_drlv2, mean2))
+    if not np.abs(mat - want).max() <= (1e-9 + 1e-10 * (k1 + k2)) * np.abs(want).max():
+        V("refinegrains.refine:solution", "refinegrains.refine differs from two successive normal-equation solutions by %.3g"
+          % np.abs(mat - want).max())
 
 
 def check(run, replay=None):
-    from ImageD11 import cImageD11, indexing
+    from ImageD11 import cImageD11, indexing, refinegrains, unitcell
     mods = (cImageD11, indexing)
+    mods4 = (cImageD11, indexing, refinegrains, unitcell)
     libs = {v: klib.load(v) for v in ("plain", "avi0", "aviP")}
     if replay is not None:
-        one_case(run, replay["seed"], replay["case"]["index"], mods, libs)
+        cs = replay["case"]
+        if cs.get("route") == "exact":
+            exact_case(run, replay["seed"], cs["index"], mods, libs)
+        elif cs.get("route") == "method":
+            method_case(run, replay["seed"], cs["index"], mods4)
+        else:
+            one_case(run, replay["seed"], cs["index"], mods, libs)
         run.nontrivial.update(["replay", "replay2"])
         return
     # rounding primitive on the rebuilt module
@@ -303,12 +727,17 @@ def check(run, replay=None):
         if bad != 0:
             run.violation("verify_rounding", "fast rounding differs from floor(x+0.5) near n=%d (%d cases)" % (nn, bad),
                           dict(n=nn))
-    ncase = 1500 if run.tier == "quick" else 40000
+    quick = run.tier == "quick"
+    for k in range(300 if quick else 6000):
+        exact_case(run, run.seed, k, mods, libs)
+    for k in range(60 if quick else 1500):
+        method_case(run, run.seed, k, mods4)
+    ncase = 1500 if quick else 40000
     for idx in range(ncase):
         one_case(run, run.seed, idx, mods, libs)
     # long peak lists, many repetitions, many threads: counts must never depend on the schedule
     r = rng(run.seed, "C06", "stress")
-    for k in range(6 if run.tier == "quick" else 40):
+    for k in range(6 if quick else 40):
         n = int([4097, 8192, 20000, 65536][k % 4])
         ubi = np.ascontiguousarray(np.linalg.inv(xtal.random_rotation(r) @ xtal.Bmat(xtal.random_cell(r, "cubic", 3, 6))))
         gv = np.ascontiguousarray(r.uniform(-1.5, 1.5, (n, 3)))
@@ -319,7 +748,7 @@ def check(run, replay=None):
         hi = int((d2 < tol * tol + bw).sum())
         for nt in (2, 4, 16, 64):
             cImageD11.cimaged11_omp_set_num_threads(nt)
-            for rep in range(150 if run.tier == "quick" else 600):
+            for rep in range(150 if quick else 600):
                 c = int(cImageD11.score(ubi, gv, tol))
                 run.count("score_stress_calls")
                 if not lo <= c <= hi:
@@ -327,13 +756,40 @@ def check(run, replay=None):
                                   "threads, reference interval [%d,%d]" % (c, n, rep, nt, lo, hi), dict(index=-1, n=n, threads=nt))
                     break
     cImageD11.cimaged11_omp_set_num_threads(4)
-    import os
     if not os.environ.get("VERIF_ASAN_RERUN"):
         from .. import sched_kernels
-        sched_kernels.attach(run, ["score", "score_and_refine", "refine_assigned"], 24 if run.tier == "quick" else 240,
+        sched_kernels.attach(run, ["score", "score_and_refine", "refine_assigned"], 24 if quick else 240,
                              [[1, 0], [2, 4], [4, 4], [8, 1]], "closest")
         run.require_counter("sched_determinism_comparisons", 20)
-    run.require_counter("refined_matrices_checked", 100)
+    run.require_counter("refined_matrices_checked", 300)
+    run.require_counter("refined_margin_enumerated", 20)
     run.require_counter("singular_cases", 10)
     run.require_counter("singular_UB_cases", 5)
+    run.require_counter("singular_cases_general_plane", 10)
+    run.require_counter("singular_cases_large_H_zero_row", 3)
     run.require_counter("definedness_runs", 100)
+    run.require_counter("exact_peaks_at_tolerance", 300)
+    run.require_counter("python_refine_decided", 50)
+    run.require_counter("python_refine_singular_zero_row_cases", 5)
+    for kind in ("good", "perturbed", "random", "strained"):
+        run.require_counter("python_refine_kind_%s" % kind, 5)
+    run.require_counter("indexer_refine_decided", 10)
+    run.require_counter("indexer_refine_offring_indexed_peaks", 10)
+    run.require_counter("refinegrains_refine_decided", 10)
+    run.require_counter("layout_variant_cases", 50)
+    run.require_counter("refine_assigned_label_-1", 20)
+    run.require_counter("refine_assigned_label_other", 20)
+    # the margin skip must stay the exception
+    sk = run.counters.get("refined_skipped_margin", 0)
+    calls = run.counters.get("refine_calls", 0) + run.counters.get("refine_assigned_calls", 0)
+    if calls and sk > 0.1 * calls:
+        run.inconc("refined-matrix check skipped for %d of %d refinement calls (more than %d band peaks)" % (sk, calls, MAX_ENUM))
+    # keep the evidence readable: fold the per-class counters into one coverage entry
+    cls = {k: v for k, v in run.counters.items() if k.startswith("class_")}
+    for k in cls:
+        del run.counters[k]
+    run.extra["ubi_class_x_n_cases"] = cls
+    want_cls = ["class_%s_n%d" % (kd, nn) for kd in ("good", "perturbed", "random", "strained") for nn in SIZES]
+    missing = [c for c in want_cls if c not in cls]
+    if missing:
+        run.inconc("UBI class x peak count combinations never generated: %s" % ",".join(missing))
